@@ -271,7 +271,7 @@ def frame(job, mode, n_curves, names):
             cnt.reset()
             return orig_cpf(self, *a, **k)
 
-        if "flux_solver" in names:
+        if names[0] in ("flux_solver", "permeate_composition", "separation_factor", "permeance"):
             pt.set(P_, "calculate_partial_fluxes", cpf)  # the real solver (loop bound K = 1)
         else:
             # curves and processes: the flux calculation is an uninterpreted function of its arguments (its own purity is
@@ -357,7 +357,7 @@ def histories(job, mode, pairs):
 
 
 JOB_TIMEOUT = {"quick": 500, "thorough": 3000}
-GROUPS = [["flux_solver", "permeate_composition", "separation_factor", "permeance", "selectivity"], ["ideal_curve", "measurements_first", "measurements_second"],
+GROUPS = [["flux_solver"], ["permeate_composition"], ["separation_factor"], ["permeance", "selectivity"], ["ideal_curve", "measurements_first", "measurements_second"],
           ["fit"], ["find_best_fit"], ["non_ideal_curve"], ["ideal_iso"], ["ideal_noniso"], ["nonideal_iso"], ["nonideal_noniso"]]
 
 
